@@ -356,11 +356,18 @@ func taskfile(e *env, c *acase) string {
 		b.WriteString("  X: " + q(`{{.X_FALLBACK | default "`+declTmpl+`"}}`) + "\n")
 	}
 	b.WriteString("tasks:\n")
-	b.WriteString("  fwd:\n    cmds:\n      - " + q("{{.ARGDUMP}} A {{.CLI_ARGS}} Z") + "\n")
+	// odd cases: the commands carry a part that renders to nothing, but only once a dynamic variable is known (the
+	// first, shell-free compilation of the task fails on it and the failure is tolerated by design)
+	late, lateVar := "", ""
+	if c.idx%2 == 1 {
+		late = `{{if eq (index (splitList "-" .DYNV) 1) "2"}}{{end}}`
+		lateVar = "    vars:\n      DYNV:\n        sh: echo 1-2\n"
+	}
+	b.WriteString("  fwd:\n" + lateVar + "    cmds:\n      - " + q("{{.ARGDUMP}} A {{.CLI_ARGS}} Z"+late) + "\n")
 	cmds := func(v string) string {
 		return "    cmds:\n      - " + q("{{.ARGDUMP}} A {{shellQuote ."+v+"}} Z") + "\n      - " + q("{{.ARGDUMP}} B {{q ."+v+"}} Z") + "\n"
 	}
-	b.WriteString("  clivar:\n" + cmds("X"))
+	b.WriteString("  clivar:\n" + lateVar + strings.Replace(cmds("X"), " Z'\n", " Z"+strings.ReplaceAll(late, "'", "''")+"'\n", 1))
 	b.WriteString("  osenv:\n" + cmds("X_ENV"))
 	b.WriteString("  sh:\n    vars:\n      X:\n        sh: cat val.bin\n" + cmds("X"))
 	if c.Family == "var" && c.Way == "yaml" {
